@@ -21,13 +21,15 @@ package db
 //@ spec bindsSched(agent) = bindI("SleepDelay") == agent.Info.SleepDelay && bindI("SleepJitter") == agent.Info.SleepJitter && bindI64("KillDate") == agent.Info.KillDate && bindI32("WorkingHours") == agent.Info.WorkingHours
 //@ spec bindsKeys(agent) = bindS("AESKey") == ufs_b64(agent.Encryption.AESKey) && bindS("AESIv") == ufs_b64(agent.Encryption.AESIv)
 
+// id32(s): s is a session name - eight hex digits, hence a value below 2^32
+//@ spec id32(s) = ufb_ishex8(s) && uf_hexval(s) >= 0 && uf_hexval(s) < 4294967296
 // Every session id the teamserver hands out (eight hex digits, the whole 32-bit
 // range) gets its row: the id never fails to parse, and the row is keyed by it.
 //@ func (db *DB) AgentAdd(agent *agent.Agent) (err error)
 //@   requires nonnil: db != nil && db.db != nil && agent != nil && agent.Info != nil
-//@   ensures allids: ufb_ishex8(agent.NameID) ==> !(err != nil && ufb_parseerr(err))
+//@   ensures allids: id32(agent.NameID) ==> !(err != nil && ufb_parseerr(err))
 //@   guard-call table: "Exec" prefixof("INSERT INTO TS_Agents ", lastarg(Prepare, 1)) && len(arg(1)) == 25
-//@   guard-call id:    "Exec" ufb_ishex8(agent.NameID) ==> bindI("AgentID") == uf_hexval(agent.NameID)
+//@   guard-call id:    "Exec" id32(agent.NameID) ==> bindI("AgentID") == uf_hexval(agent.NameID)
 //@   guard-call state: "Exec" bindI("Active") == 1 && bindS("Reason") == ""
 //@   guard-call keys:  "Exec" bindsKeys(agent)
 //@   guard-call info:  "Exec" bindsInfo(agent)
@@ -36,9 +38,9 @@ package db
 
 //@ func (db *DB) AgentUpdate(agent *agent.Agent) (err error)
 //@   requires nonnil: db != nil && db.db != nil && agent != nil && agent.Info != nil
-//@   ensures allids: ufb_ishex8(agent.NameID) ==> !(err != nil && ufb_parseerr(err))
+//@   ensures allids: id32(agent.NameID) ==> !(err != nil && ufb_parseerr(err))
 //@   guard-call table: "Exec" prefixof("UPDATE TS_Agents SET ", lastarg(Prepare, 1)) && suffixof(" WHERE AgentID = ?", lastarg(Prepare, 1)) && len(arg(1)) == 25
-//@   guard-call id:    "Exec" ufb_ishex8(agent.NameID) ==> bindI("AgentID") == uf_hexval(agent.NameID)
+//@   guard-call id:    "Exec" id32(agent.NameID) ==> bindI("AgentID") == uf_hexval(agent.NameID)
 //@   guard-call state: "Exec" bindI("Active") == ite(agent.Active, 1, 0) && bindS("Reason") == agent.Reason
 //@   guard-call keys:  "Exec" bindsKeys(agent)
 //@   guard-call info:  "Exec" bindsInfo(agent)
@@ -63,6 +65,8 @@ package db
 //@ spec outP(col) = arg(1)[sqlout(lastarg(Query, 1), col)]
 //@ func (db *DB) AgentAll() (r []*agent.Agent)
 //@   requires nonnil: db != nil && db.db != nil
+//@   loop "for query.Next()"
+//@     invariant own: cap(Agents) == 0 || fresh(arrayof(Agents))
 //@   guard-call live:  "Query" prefixof("SELECT ", arg(1)) && suffixof(" FROM TS_Agents WHERE Active = 1", arg(1))
 //@   guard-call dest1: "Scan" len(arg(1)) == 25 && unboxed(outP("AgentID"), *int) == &AgentID && unboxed(outP("Active"), *int) == &Active && unboxed(outP("Reason"), *string) == &Reason && unboxed(outP("AESKey"), *string) == &AESKey && unboxed(outP("AESIv"), *string) == &AESIv
 //@   guard-call dest2: "Scan" unboxed(outP("Hostname"), *string) == &Hostname && unboxed(outP("Username"), *string) == &Username && unboxed(outP("DomainName"), *string) == &DomainName && unboxed(outP("ExternalIP"), *string) == &ExternalIP && unboxed(outP("InternalIP"), *string) == &InternalIP && unboxed(outP("OSVersion"), *string) == &OSVersion && unboxed(outP("OSArch"), *string) == &OSArch && unboxed(outP("FirstCallIn"), *string) == &FirstCallIn && unboxed(outP("LastCallIn"), *string) == &LastCallIn
@@ -89,6 +93,8 @@ package db
 //@   guard-call dest: "Scan" len(arg(1)) == 1 && unboxed(arg(1)[0], *int) == &ID
 //@ func (db *DB) LinksOf(AgentID int) (ids []int)
 //@   requires nonnil: db != nil && db.db != nil
+//@   loop "for query.Next()"
+//@     invariant own: cap(IDs) == 0 || fresh(arrayof(IDs))
 //@   guard-call stmt: "Query" lastarg(Prepare, 1) == "SELECT LinkAgentID FROM TS_Links WHERE ParentAgentID = ?" && len(arg(1)) == 1 && unboxed(arg(1)[0], int) == AgentID
 //@   guard-call dest: "Scan" len(arg(1)) == 1 && unboxed(arg(1)[0], *int) == &ID
 
@@ -103,6 +109,8 @@ package db
 //@   requires nonnil: db != nil && db.db != nil
 //@ func (db *DB) ListenerAll() (r []map[string]string)
 //@   requires nonnil: db != nil && db.db != nil
+//@   loop "for query.Next()"
+//@     invariant own: cap(Listeners) == 0 || fresh(arrayof(Listeners))
 //@   guard-call all:  "Query" prefixof("SELECT ", arg(1)) && suffixof(" FROM TS_Listeners", arg(1))
 //@   guard-call dest: "Scan" len(arg(1)) == 3 && unboxed(outP("Name"), *string) == &Name && unboxed(outP("Protocol"), *string) == &Prot && unboxed(outP("Config"), *string) == &Conf
 //@   guard-call row:  "append" Data["Name"] == Name && Data["Protocol"] == Prot && Data["Config"] == Conf
